@@ -132,6 +132,7 @@ import (
 	"honnef.co/go/tools/config"
 	"honnef.co/go/tools/go/loader"
 	tsync "honnef.co/go/tools/internal/sync"
+	"honnef.co/go/tools/internal/verifhook"
 	"honnef.co/go/tools/lintcmd/cache"
 	"honnef.co/go/tools/unused"
 
@@ -570,7 +571,11 @@ func (r *subrunner) do(act action) error {
 			ids = append(ids, cache.Subkey(a.hash, "testdata"))
 		}
 	}
+	verifhook.Point("subrunner.lookup")
 	if err := getCachedFiles(r.cache, ids, []*string{&a.vetx, &a.results, &a.testData}); err != nil {
+		if verifhook.Enabled {
+			verifhook.PointD("subrunner.miss", a.Package.PkgPath)
+		}
 		result, err := r.doUncached(a)
 		if err != nil {
 			return err
@@ -608,6 +613,7 @@ func (r *subrunner) do(act action) error {
 		if a.factsOnly {
 			return nil
 		}
+		verifhook.Point("subrunner.store.between")
 
 		var out ResultData
 		out.Directives = make([]SerializedDirective, len(result.dirs))
@@ -810,15 +816,22 @@ func genericHandle(a action, root action, queue chan action, sem *tsync.Semaphor
 		}
 	}
 
+	if verifhook.Enabled {
+		verifhook.PointD("runner.exec.before", fmt.Sprint(a))
+	}
 	if !a.IsFailed() {
 		if err := exec(a); err != nil {
 			a.MarkFailed()
 			a.AddError(err)
 		}
 	}
+	if verifhook.Enabled {
+		verifhook.PointD("runner.exec.after", fmt.Sprint(a))
+	}
 	if sem != nil {
 		sem.Release()
 	}
+	verifhook.Point("runner.trigger")
 
 	for _, t := range a.Triggers() {
 		if t.DecrementPending() {
